@@ -158,8 +158,8 @@ func c09Case(origin, typ string, nlines int, prefixKnown string) *Case {
 	case "poryswitch-selected", "poryswitch-fallback":
 		name := atoms.New(ClsUserName, "text", "names")
 		key := atoms.New(ClsIdent, "swkey", "")
-		val := atoms.New(ClsIdent, "swval", "swvals")
-		other := atoms.New(ClsIdent, "swother", "swvals")
+		val := atoms.New(ClsIdent, "swval", "swvals", "_")
+		other := atoms.New(ClsIdent, "swother", "swvals", "_")
 		txt := ""
 		for i, l := range lits {
 			if i > 0 {
